@@ -26,8 +26,6 @@ def explain(case, verdict, o, model):
         return "KF-C04-2"
     if exc == "TypeError" and case["kind"] == "operand" and n.get("op") == "+" and n.get("left") == "Str" and n.get("right") in ("Int", "Float", "Bool"):
         return "KF-C04-3"
-    if exc == "TypeError" and case["kind"] == "unary" and n.get("op") == "neg" and n.get("operand") in ("Str", "None", "A"):
-        return "KF-C04-4"
     return None
 
 
